@@ -87,7 +87,7 @@ func (Engine) Describe(property string) core.Description {
 			"handshakes are never concurrent; concurrent requests (Layer 2) use connections established one after the other; sampling: held on everything explored, not a proof"},
 		RequiredProbes: []string{"probe:genuine-accepted", "probe:forged-presented", "probe:revoked-presented", "probe:expired-by-clock-jump", "probe:not-yet-valid-presented",
 			"probe:chain-presented", "probe:wrong-usage-presented", "probe:hostile-path", "probe:backend-reached", "fault:chain-query-error",
-			"fault:chain-query-slow", "probe:foreign-issuer-presented", "probe:session-resumed"},
+			"fault:chain-query-slow", "probe:foreign-issuer-presented", "probe:reconnect-with-session-cache"},
 	}
 	if layer2() {
 		d.RequiredProbes = append(d.RequiredProbes, "probe:concurrent-requests-completed")
